@@ -250,3 +250,16 @@ Proof.
   exists (mk_tpl 2 [(0, 1)] [(0, 0)] 0), (1, 2), [((0, 1), 1)]. split; [reflexivity|]. split; vm_compute; reflexivity.
 Qed.
 Print Assumptions C17_smoothing_refuted_interface_evidence.
+
+(* ---- sessions: the engine state machine of Model.v (state untouched by a question): the k-th answer of a
+   session is the answer a fresh engine gives to the k-th question alone, whatever was asked before *)
+Theorem C17_session_independent e qs :
+  session e qs = map (answer e) qs /\
+  forall pre q, nth_error (session e (pre ++ [q])) (length pre) = Some (answer e q).
+Proof.
+  assert (H : forall l, session e l = map (answer e) l).
+  { induction l as [|q r IH]; [reflexivity|]. cbn [session engine_ask map]. rewrite IH. reflexivity. }
+  split; [apply H|]. intros pre q. rewrite H, map_app. rewrite nth_error_app2 by (rewrite map_length; apply le_n).
+  rewrite map_length, Nat.sub_diag. reflexivity.
+Qed.
+Print Assumptions C17_session_independent.
